@@ -114,3 +114,11 @@ for n in (2, 3, 4):
           prove=[('objective', 'eq._objective(x, g, p) == ' + obj)] +
                 [('jacobian-is-the-gradient[%d]' % k,
                   'eq._objective_jac(x, g, p)[%d] == D(eq._objective(x, g, p), x[%d])' % (k, k)) for k in range(n)])
+
+# ---- the same objective for the largest networks of the property (declared bounded: run natively on samples; never counted as proved) --
+for n in (6, 10, 11, 12):
+    lemma('objective-is-mixture-gibbs-energy,large[n=%d]' % n, P, native_only=True,
+          forall=dict(eq=Fields(EQ), x=RealVec(n, 0.01, 3.), g=RealList(n, -30., 30.), p=Real(0.01, 100.)),
+          given=['all(x[i] > 0 for i in range(%d))' % n, 'p > 0'],
+          prove=[('objective', 'eq._objective(x, g, p) == sum(x[i] * (g[i] + log(x[i] * p / sum(x[k] for k in range(%d)))) for i in range(%d))' % (n, n)),
+                 ('jacobian', 'all(eq._objective_jac(x, g, p)[j] == g[j] + log(x[j] * p / sum(x[k] for k in range(%d))) for j in range(%d))' % (n, n))])
